@@ -205,7 +205,42 @@ def m_pad(interp, a, pad_width, mode="constant", **kw):
 def m_array_equal(interp, a, b):
     if not isinstance(a, SArr) and not isinstance(b, SArr):
         return _native(np.array_equal, a, b)
-    raise Unsupported("np.array_equal on symbolic arrays")
+    c = ctx()
+    if not (isinstance(a, SArr) and isinstance(b, SArr)) or a.ndim != b.ndim:
+        raise Unsupported("np.array_equal form")
+    for x, y in zip(a.shape, b.shape):
+        if not interp.truth(x == y):
+            return False
+    c.trust("np.array_equal: same shape and all elements equal (modelled through a witness index chosen by the environment: a differing one if any)")
+    if interp.truth(a.size == 0):
+        return True
+    w = tuple(c.int("w") for _ in a.shape)
+    c.assume(a.in_bounds(w))
+    return a.elem(*w) == b.elem(*w)
+
+
+import functools as _functools
+
+
+@model(_functools.reduce)
+def m_reduce(interp, f, it, *init):
+    vals = interp.iterate(it)
+    if init:
+        acc = init[0]
+    else:
+        if not vals:
+            raise RaiseSig(TypeError("reduce() of empty iterable with no initial value"))
+        acc, vals = vals[0], vals[1:]
+    for v in vals:
+        acc = interp.call(f, (acc, v))
+    return acc
+
+
+@model(np.bitwise_or)
+def m_bitwise_or(interp, a, b, **kw):
+    if not isinstance(a, SArr) and not isinstance(b, SArr):
+        return _native(np.bitwise_or, a, b, **kw)
+    return a | b
 
 
 @model(np.concatenate)
